@@ -346,10 +346,12 @@ impl WmoParser {
             None => return Ok(Vec::new()), // No materials
         };
 
-        momt_chunk.seek_to_data(reader)?;
-        let mut materials = Vec::with_capacity(n_materials as usize);
-
         const MATERIAL_SIZE: usize = 64;
+
+        momt_chunk.seek_to_data(reader)?;
+        // The count comes from MOHD; reserve no more than the chunk can hold
+        let max_materials = momt_chunk.max_records(reader, MATERIAL_SIZE as u32)?;
+        let mut materials = Vec::with_capacity((n_materials as usize).min(max_materials));
 
         for _ in 0..n_materials {
             let flags = WmoMaterialFlags::from_bits_truncate(reader.read_u32_le()?);
@@ -431,7 +433,9 @@ impl WmoParser {
         };
 
         mogi_chunk.seek_to_data(reader)?;
-        let mut groups = Vec::with_capacity(n_groups as usize);
+        // The count comes from MOHD; reserve no more than the chunk can hold (32 bytes per entry)
+        let max_groups = mogi_chunk.max_records(reader, 32)?;
+        let mut groups = Vec::with_capacity((n_groups as usize).min(max_groups));
 
         for i in 0..n_groups {
             let flags = WmoGroupFlags::from_bits_truncate(reader.read_u32_le()?);
@@ -530,7 +534,9 @@ impl WmoParser {
         };
 
         mopt_chunk.seek_to_data(reader)?;
-        let mut portals = Vec::with_capacity(n_portals as usize);
+        // The count comes from MOHD; reserve no more than the chunk can hold (20 bytes per portal)
+        let max_portals = mopt_chunk.max_records(reader, 20)?;
+        let mut portals = Vec::with_capacity((n_portals as usize).min(max_portals));
 
         for _ in 0..n_portals {
             let vertex_index = reader.read_u16_le()? as usize;
@@ -676,7 +682,9 @@ impl WmoParser {
         };
 
         molt_chunk.seek_to_data(reader)?;
-        let mut lights = Vec::with_capacity(n_lights as usize);
+        // The count comes from MOHD; reserve no more than the chunk can hold (48 bytes per light)
+        let max_lights = molt_chunk.max_records(reader, 48)?;
+        let mut lights = Vec::with_capacity((n_lights as usize).min(max_lights));
 
         for _ in 0..n_lights {
             let light_type_raw = reader.read_u8()?;
@@ -798,7 +806,9 @@ impl WmoParser {
             );
         }
 
-        let mut doodads = Vec::with_capacity(actual_doodad_count as usize);
+        // The chunk size is untrusted as well; reserve only what the stream really holds
+        let max_doodads = modd_chunk.max_records(reader, 40)?;
+        let mut doodads = Vec::with_capacity((actual_doodad_count as usize).min(max_doodads));
 
         for _ in 0..actual_doodad_count {
             let name_index_raw = reader.read_u32_le()?;
@@ -859,7 +869,9 @@ impl WmoParser {
         };
 
         mods_chunk.seek_to_data(reader)?;
-        let mut sets = Vec::with_capacity(n_doodad_sets as usize);
+        // The count comes from MOHD; reserve no more than the chunk can hold (32 bytes per set)
+        let max_sets = mods_chunk.max_records(reader, 32)?;
+        let mut sets = Vec::with_capacity((n_doodad_sets as usize).min(max_sets));
 
         for _i in 0..n_doodad_sets {
             // Read 20 bytes for the set name (including null terminator)
